@@ -27,7 +27,12 @@ KW = ["delta", "max_buckets", "new_sample_thresh", "window_size_thresh", "subwin
 
 def scenarios(tier):
     k = 1 if tier == "quick" else 10
-    return [("adwin", 2000 * k), ("adwin_m1", 600 * k), ("accuracy", 700 * k)]
+    # "marathon": one instance fed 4300-5200 samples (anything periodic in the number of updates, a counter crossing 2**12, drift of
+    # the running sums only shows there), a level shift near the end
+    return [("adwin", 2000 * k), ("adwin_m1", 600 * k), ("accuracy", 700 * k), ("marathon", 4 if tier == "quick" else 16)]
+
+
+HEAVY = ["marathon"]
 
 
 def _cfg(rng, scenario):
@@ -45,6 +50,16 @@ def _cfg(rng, scenario):
 
 def gen(rng, scenario, tier):
     cfg = _cfg(rng, scenario)
+    if scenario == "marathon":
+        cfg.update(delta=rng.choice([0.002, 1e-4]), new_sample_thresh=rng.choice([16, 32]), max_buckets=rng.randint(3, 6))
+        n = rng.randint(4300, 5200)
+        kind = rng.choice(["gauss", "bern"])
+        cfg["conservative_bound"] = cfg["conservative_bound"] if kind == "bern" else False    # (the Hoeffding bound presumes data in [0, 1])
+        ev, drifts = workload.stream_values(rng, n, kind=kind, drift_rate=0.0)
+        n0 = n - rng.randint(150, 400)
+        step = (max(ev) - min(ev)) * 0.75 or 1.0
+        ev = ev[:n0] + [round(v + step, 4) for v in ev[n0:]]
+        return {"cfg": cfg, "events": ev, "drift_positions": [n0]}
     if scenario == "accuracy" and rng.random() < 0.35:
         # falsy-but-legal settings (twin comparison only): no minimum window / sub-window size
         cfg["window_size_thresh"] = 0
